@@ -41,6 +41,7 @@ type Options struct {
 	TLSListener       bool // the proxy listener speaks TLS (self-signed certificate)
 	TLSHandshakeTimeout   time.Duration // transport: TLS handshake timeout towards the origin
 	ResponseHeaderTimeout time.Duration // transport: time to wait for the origin's response head
+	ProxyProtocol         time.Duration     // > 0: the listener expects a PROXY protocol header (value = header read timeout)
 	Redirect              map[string]string // dial redirect (--connect-to): requested host:port -> address actually dialled
 }
 
@@ -147,6 +148,9 @@ func New(opt Options) (*Rig, error) {
 	cfg.Name = "vfproxy"
 	if opt.TLSListener {
 		cfg.Protocol = forwarder.HTTPSScheme
+	}
+	if opt.ProxyProtocol > 0 {
+		cfg.ProxyProtocolConfig = &forwarder.ProxyProtocolConfig{ReadHeaderTimeout: opt.ProxyProtocol}
 	}
 	if opt.ConnectTimeout != 0 {
 		cfg.ConnectTimeout = opt.ConnectTimeout
